@@ -13,6 +13,7 @@ The oracle (footprints, coverage) is written here from the property text; the br
 from __future__ import annotations
 
 import time
+from fractions import Fraction
 
 import jax
 import jax.numpy as jnp
@@ -215,15 +216,39 @@ def _gen_case(c, case):
     run = lambda d: np.asarray(fn(jnp.asarray(d))).astype(bool)
     what = "BrushConstraint2D._generator"
     it, out, tr, K = _unroll(c, what, fn, arr, box, N, run)
+    if it is None:
+        return
     _check_outputs(c, case, what, arr, box, it, _tobool(out), run, K, brush)
-    # translator validation: the unrolled interpretation on concrete designs against the real loop
-    rng = np.random.default_rng(c.seed + 25)
-    for _ in range(2):
-        d = np.round(rng.uniform(-1, 1, size=shape), 3)
-        c.validate(jx.to_numeric(tr(jx.fracarr(d), interp=BrushInterp(unroll_bound=4 * N))).astype(np.float64), np.asarray(fn(jnp.asarray(d))).astype(np.float64), "generator")
+    _validate_terms(c, arr, it, out, lambda d: np.asarray(fn(jnp.asarray(d))), np.random.default_rng(c.seed + 25), N, "generator")
     c.extra["eqns"] = tr.n_eqns
     c.extra["while_iterations_unrolled"] = it.stats["while_iters"]
     c.bounds.update(shape=list(shape), brush=case["brush"], K=K)
+
+
+def _validate_terms(c, arr, it, out, real, rng, N, what, n=3):
+    """translator validation of the very terms the obligations are about: the K-times unrolled symbolic output is
+    evaluated on concrete designs (z3 model evaluation) and compared with the real loop (run through ``run_real`` so that a
+    non-terminating design cannot hang the check).  Designs that need more than K iterations are skipped."""
+    done = 0
+    for _ in range(4 * n):
+        d = np.round(rng.uniform(-1, 1, size=arr.shape), 3)
+        s = z3.Solver()
+        for v, x in zip(arr.reshape(-1), d.reshape(-1)):
+            s.add(v == z3.RealVal(Fraction(float(x))))
+        if s.check() != z3.sat:
+            raise Inconclusive("translator validation: could not fix a concrete design")
+        m = s.model()
+        if not z3.is_true(m.eval(z3.And(*it.unwinding), model_completion=True)):
+            continue
+        o, info = run_real(lambda: real(d), 4 * N + 8)
+        if o is None:
+            continue
+        c.validate(model_array(m, jx.lift(out)).astype(np.float64), np.asarray(o).astype(np.float64), what)
+        done += 1
+        if done >= n:
+            break
+    if done == 0:
+        raise Inconclusive("translator validation: no sampled design finished within the unwinding bound on both sides")
 
 
 def _unroll(c, what, fn, arr, box, N, run, dtypes=None):
@@ -234,6 +259,12 @@ def _unroll(c, what, fn, arr, box, N, run, dtypes=None):
     real loop (it violates the statement if the real loop makes no progress / exceeds 4 * #pixels iterations)."""
     tr = None
     K0 = max(2, N // 2)
+    try:  # a legal design on which the real code raises is a violation by itself
+        run_real(lambda: run(np.linspace(-0.9, 0.9, arr.size).reshape(arr.shape)), 4 * N + 8)
+    except Exception as ex:  # noqa: BLE001
+        c.witness("design is legal (real array of the module's input shape)", True)
+        c.fail_concrete(f"{what} raises", dict(shape=list(arr.shape), exception=f"{type(ex).__name__}: {ex}"[:300]), key=f"{what}:raises")
+        return None, None, None, None
     for K in range(K0, N + 1):
         t0 = time.time()
         it = BrushInterp(unroll_bound=K)
@@ -316,6 +347,8 @@ def _module_case(c, case):
     what = "BrushConstraint2D.__call__"
     run = lambda d: np.asarray(fn(jnp.asarray(np.asarray(d).reshape(s3))))[..., 0] == (1 - bg)
     it, out, tr, K = _unroll(c, what, fn, arr, box, N, run)
+    if it is None:
+        return
     out = jx.lift(out)
     hyp = box + [z3.And(*it.unwinding)]
 
@@ -334,9 +367,7 @@ def _module_case(c, case):
         mat[idx] = is1 if bg == 0 else is0  # material = the non-background index
     # regions: index 1-bg is solid material for the oracle; feasibility is symmetric in solid/void anyway
     _check_outputs(c, case, what, arr, box, it, mat, run, K, brush)
-    rng = np.random.default_rng(c.seed + 26)
-    d = np.round(rng.uniform(-1, 1, size=s3), 3)
-    c.validate(jx.to_numeric(tr(jx.fracarr(d), interp=BrushInterp(unroll_bound=4 * N))).astype(np.float64), np.asarray(fn(jnp.asarray(d))).astype(np.float64), "module")
+    _validate_terms(c, arr, it, out, lambda d: np.asarray(fn(jnp.asarray(d))), np.random.default_rng(c.seed + 26), N, "module")
     c.bounds.update(shape=list(shape), brush=case["brush"], K=K, background_index=bg)
 
 
